@@ -97,6 +97,7 @@ impl<T: Clone + Number> Mesh2D<T> {
     /// Return a cross section of the 2D mesh at a specified x node 
     #[inline]
     pub fn cross_section_xnode(&self, nodex: usize ) -> Mesh1D<T, f64> {
+        if nodex >= self.nx { panic!( "Mesh2D cross_section_xnode: x node out of range." ); }
         let mut section = Mesh1D::<T, f64>::new( self.y_nodes.clone(), self.nvars );
         for nodey in 0..self.ny {
             section.set_nodes_vars( nodey, self.get_nodes_vars( nodex, nodey ) );
@@ -107,6 +108,7 @@ impl<T: Clone + Number> Mesh2D<T> {
     /// Return a cross section of the 2D mesh at a specified y node 
     #[inline]
     pub fn cross_section_ynode(&self, nodey: usize ) -> Mesh1D<T, f64> {
+        if nodey >= self.ny { panic!( "Mesh2D cross_section_ynode: y node out of range." ); }
         let mut section = Mesh1D::<T, f64>::new( self.x_nodes.clone(), self.nvars );
         for nodex in 0..self.nx {
             section.set_nodes_vars( nodex, self.get_nodes_vars( nodex, nodey ) );
@@ -131,6 +133,7 @@ impl<T: Clone + Number> Mesh2D<T> {
     /// Apply a function to the a specified variable in the mesh 
     #[inline]
     pub fn apply(&mut self, func: &dyn Fn(f64, f64) -> T, var: usize ) {
+        if var >= self.nvars { panic!( "Mesh2D apply: index larger than # variables." ); }
         for i in 0..self.nx {
             let x = self.x_nodes[i].clone();
             for j in 0..self.ny {
@@ -146,6 +149,7 @@ impl Mesh2D<f64> {
     /// Integrate a given variable over the domain (trapezium rule)
     #[inline]
     pub fn trapezium(&self, var: usize ) -> f64 {
+        if var >= self.nvars { panic!( "Mesh2D trapezium: index larger than # variables." ); }
         let mut sum: f64 = 0.0;
         for i in 0..self.nx-1 {
             let dx = self.x_nodes[ i + 1 ] - self.x_nodes[ i ];
@@ -163,6 +167,7 @@ impl Mesh2D<f64> {
     /// Integrate the square of a given variable over the domain (trapezium rule)
     #[inline]
     pub fn square_trapezium(&self, var: usize ) -> f64 {
+        if var >= self.nvars { panic!( "Mesh2D square_trapezium: index larger than # variables." ); }
         let mut sum: f64 = 0.0;
         for i in 0..self.nx-1 {
             let dx = self.x_nodes[ i + 1 ] - self.x_nodes[ i ];
@@ -219,6 +224,7 @@ impl<T: fmt::Display> Mesh2D<T> {
     /// Print the mesh of a single variable to a file 
     #[inline]
     pub fn output_var(&self, filename: &str, var: usize, precision: usize ) {
+        if var >= self.nvars { panic!( "Mesh2D output_var: index larger than # variables." ); }
         let mut f = File::create(filename).expect("Unable to create file");
         for j in 0..self.ny {
             for i in 0..self.nx {  
